@@ -1,13 +1,28 @@
 // Unit c43_non_fungible_ids -- property C43 "Non-fungible ids are never reused and data changes are restricted"
+// (and, as a by-product, the non-fungible half of C03's supply bookkeeping).
 // Real code: radix-engine/src/blueprints/resource/non_fungible/non_fungible_resource_manager.rs ::
-//     create_non_fungibles, NonFungibleResourceManagerBlueprint::{burn_internal, burn, package_burn,
-//     update_non_fungible_data, non_fungible_exists}
+//     create_non_fungibles, NonFungibleResourceManagerBlueprint::{mint_non_fungible, mint_ruid_non_fungible,
+//     mint_single_ruid_non_fungible, burn, package_burn, burn_internal, update_non_fungible_data,
+//     non_fungible_exists, get_non_fungible, create_bucket, update_total_supply, assert_mintable, assert_burnable,
+//     assert_is_not_ruid, assert_is_ruid}
+//   radix-engine/src/blueprints/resource/bucket_common.rs :: drop_non_fungible_bucket
+//   radix-engine-interface/src/blueprints/resource/resource.rs :: LiquidNonFungibleResource::{new, ids, into_ids,
+//     amount}, LockedNonFungibleResource::{is_locked, default}
 // run against a ghost key-value store with per-entry lock flags (env::SystemApi):
 //     kv : NonFungibleLocalId -> (value: Option<data>, locked)      (an absent key is the default entry: None, unlocked)
+// plus the fields (0 = IdType, 1 = MutableFields, 2 = TotalSupply), features and live objects of the resource manager.
 // A LIVE non-fungible is an entry with Some(data); a TOMBSTONE is a locked entry with None.  The assumed KV-entry
-// API (opening an entry for writing fails if the entry is locked; set / remove / lock need a write handle) is the
-// behaviour of radix-engine/src/system/system.rs that unit c51_locked_state puts under contract.
+// API (opening an entry for writing fails if the entry is locked -- the ONLY lock check; set / remove / lock need a
+// write handle) is the behaviour of radix-engine/src/system/system.rs that unit c51_locked_state puts under contract.
 use vstd::prelude::*;
+// radix-rust `indexmap!{ k => v, .. }` (radix-rust/src/rust.rs): a fresh IndexMap, the pairs inserted in order
+macro_rules! indexmap {
+    ($($key:expr => $value:expr),* $(,)?) => ({
+        let mut temp = index_map_new();
+        $( temp.insert($key, $value); )*
+        temp
+    });
+}
 verus! {
 /*@include shims/rt.rs @*/
 /*@include shims/decimal.rs @*/
@@ -58,6 +73,9 @@ pub mod env {
         pub fn id_type(&self) -> (r: NonFungibleIdType) ensures r == self.id_type_spec() { unimplemented!() }
         #[verifier::external_body]
         pub fn to_key(&self) -> (r: Vec<u8>) ensures id_of_key(r@) == *self { unimplemented!() }
+        /// `NonFungibleLocalId::RUID(RUIDNonFungibleLocalId(bytes))`
+        #[verifier::external_body]
+        pub fn ruid(value: [u8; 32]) -> (r: Self) ensures r.id_type_spec() == NonFungibleIdType::RUID { unimplemented!() }
     }
     impl Clone for NonFungibleLocalId {
         #[verifier::external_body]
@@ -143,9 +161,21 @@ pub mod env {
         open spec fn obeys_from_spec() -> bool { true }
         open spec fn from_spec(f: NonFungibleResourceManagerField) -> u8 { nfrm_idx(f) }
     }
-    /// the non-fungible bucket: fields { liquid, locked }; only `X as usize` is used (in the shimmed decoder)
+    /// the non-fungible bucket: fields { liquid, locked }
+    pub enum NonFungibleBucketField { Liquid, Locked }
     pub open spec fn I_LIQUID() -> FieldIndex { 0u8 }
     pub open spec fn I_LOCKED() -> FieldIndex { 1u8 }
+    pub open spec fn bucket_idx(f: NonFungibleBucketField) -> FieldIndex {
+        match f { NonFungibleBucketField::Liquid => I_LIQUID(), NonFungibleBucketField::Locked => I_LOCKED() }
+    }
+    impl From<NonFungibleBucketField> for u8 {
+        fn from(f: NonFungibleBucketField) -> (r: u8) ensures r == bucket_idx(f)
+        { match f { NonFungibleBucketField::Liquid => 0u8, NonFungibleBucketField::Locked => 1u8 } }
+    }
+    impl vstd::std_specs::convert::FromSpecImpl<NonFungibleBucketField> for u8 {
+        open spec fn obeys_from_spec() -> bool { true }
+        open spec fn from_spec(f: NonFungibleBucketField) -> u8 { bucket_idx(f) }
+    }
 
     /// the `features:` of the macro invocation.  `feature_name()` is `stringify!(<property name>)`: five distinct
     /// strings, so the name determines the feature (`feature_of`, uninterpreted inverse).
@@ -162,12 +192,27 @@ pub mod env {
         IdType(NonFungibleIdType), MutableFields(Map<String, usize>), Supply(Decimal),
         LiquidNf(Set<NonFungibleLocalId>), LockedNf(Map<NonFungibleLocalId, usize>), Other,
     }
-    /// a live (heap) object: its fields
-    pub ghost struct ObjG { pub fields: Map<FieldIndex, GhostVal> }
+    /// which kind of value the three resource manager fields hold (established by `create_object`)
+    pub open spec fn kind_ok(idx: FieldIndex, g: GhostVal) -> bool {
+        (idx == I_ID_TYPE() ==> g is IdType) && (idx == I_MUTABLE() ==> g is MutableFields) && (idx == I_SUPPLY() ==> g is Supply)
+    }
+    /// a live (heap) object: its blueprint name and fields
+    pub ghost struct ObjG { pub blueprint: Seq<char>, pub fields: Map<FieldIndex, GhostVal> }
     /// spec view of a typed field payload
     pub trait VerifPayload: Sized {
         spec fn accepts(v: GhostVal) -> bool;
         spec fn ghost(&self) -> GhostVal;
+    }
+    /// radix-engine-interface FieldValue: an encoded field payload (+ locked flag)
+    #[verifier::external_body]
+    pub struct FieldValue { _p: () }
+    impl FieldValue {
+        pub uninterp spec fn ghost(&self) -> GhostVal;
+        #[verifier::external_body]
+        pub fn new<S: VerifPayload>(value: S) -> (r: FieldValue) ensures r.ghost() == value.ghost() { unimplemented!() }
+    }
+    pub open spec fn ghost_fields(m: Map<FieldIndex, FieldValue>) -> Map<FieldIndex, GhostVal> {
+        m.map_values(|v: FieldValue| v.ghost())
     }
     /// what the raw (encoded) fields returned by `drop_object` decode to
     pub uninterp spec fn raw_fields(raw: Vec<Vec<u8>>) -> Map<FieldIndex, GhostVal>;
@@ -207,11 +252,13 @@ pub mod env {
 
     /// Ghost model of the key-value-entry part of radix-engine-interface SystemApi (actor_key_value_entry_api.rs,
     /// key_value_entry_api.rs).  A failing call changes nothing.
-    ///   * opening an entry with LockFlags::MUTABLE FAILS if the entry is locked (system.rs: KeyValueEntryLocked);
-    ///     a read-only open always may succeed;
-    ///   * set / remove / lock succeed only through a handle opened MUTABLE (else NotAKeyValueEntryWriteHandle) and,
-    ///     for set / remove, only on an entry that is not locked;
-    ///   * `lock` keeps the value and sets the flag; nothing in this API ever clears the flag.
+    ///   * opening an entry with LockFlags::MUTABLE FAILS if the entry is locked (system.rs actor_open_key_value_entry:
+    ///     KeyValueEntryLocked; under contract in unit c51_locked_state); a read-only open always may succeed.
+    ///     THIS is the only place where the lock flag is looked at:
+    ///   * set / remove / lock succeed only through a handle opened MUTABLE (else NotAKeyValueEntryWriteHandle);
+    ///     `set` writes `KeyValueEntrySubstate::unlocked_entry(value)` (value := Some, flag := unlocked), `remove`
+    ///     takes the value and keeps the flag, `lock` keeps the value and sets the flag (system.rs,
+    ///     system_substates.rs) -- none of them checks the flag of the entry it overwrites.
     pub trait SystemApi<E: SystemApiError>: Sized {
         spec fn state(&self) -> State;
 
@@ -238,7 +285,6 @@ pub mod env {
             requires old(self).state().kv_handles.contains_key(handle)
             ensures
                 r is Ok ==> old(self).state().kv_handles[handle].1
-                    && !entry_of(old(self).state().kv, old(self).state().kv_handles[handle].0).locked
                     && final(self).state() == (State { kv: old(self).state().kv.insert(old(self).state().kv_handles[handle].0,
                             EntryG { value: Some(value.ghost()), locked: false }), ..old(self).state() }),
                 r is Err ==> final(self).state() == old(self).state(),
@@ -249,20 +295,18 @@ pub mod env {
             requires old(self).state().kv_handles.contains_key(handle)
             ensures
                 r is Ok ==> old(self).state().kv_handles[handle].1
-                    && !entry_of(old(self).state().kv, old(self).state().kv_handles[handle].0).locked
                     && final(self).state() == (State { kv: old(self).state().kv.insert(old(self).state().kv_handles[handle].0,
                             EntryG { value: Some(raw_value(buffer@)), locked: false }), ..old(self).state() }),
                 r is Err ==> final(self).state() == old(self).state(),
                 r matches Err(e) ==> !e.is_application_error();
 
-        /// removes the value (system_substates.rs `KeyValueEntrySubstate::remove`: value := None, lock status kept)
+        /// removes the value (system_substates.rs `KeyValueEntrySubstate::remove`: value := None, lock flag kept)
         fn key_value_entry_remove(&mut self, handle: KeyValueEntryHandle) -> (r: Result<Vec<u8>, E>)
             requires old(self).state().kv_handles.contains_key(handle)
             ensures
                 r is Ok ==> old(self).state().kv_handles[handle].1
-                    && !entry_of(old(self).state().kv, old(self).state().kv_handles[handle].0).locked
                     && final(self).state() == (State { kv: old(self).state().kv.insert(old(self).state().kv_handles[handle].0,
-                            EntryG { value: None, locked: false }), ..old(self).state() }),
+                            EntryG { value: None, locked: entry_of(old(self).state().kv, old(self).state().kv_handles[handle].0).locked }), ..old(self).state() }),
                 r is Err ==> final(self).state() == old(self).state(),
                 r matches Err(e) ==> !e.is_application_error();
 
@@ -293,6 +337,32 @@ pub mod env {
             ensures
                 final(self).state() == old(self).state(),
                 r matches Ok(s) ==> s.ghost() == old(self).state().fields[old(self).state().handles[handle].0],
+                r matches Err(e) ==> !e.is_application_error();
+
+        fn field_write_typed<S: VerifPayload>(&mut self, handle: FieldHandle, substate: &S) -> (r: Result<(), E>)
+            requires
+                old(self).state().handles.contains_key(handle),
+                old(self).state().handles[handle].1,
+                kind_ok(old(self).state().handles[handle].0, substate.ghost()),
+            ensures
+                r is Ok ==> final(self).state() == (State { fields: old(self).state().fields.insert(old(self).state().handles[handle].0, substate.ghost()), ..old(self).state() }),
+                r is Err ==> final(self).state() == old(self).state(),
+                r matches Err(e) ==> !e.is_application_error();
+
+        fn field_close(&mut self, handle: FieldHandle) -> (r: Result<(), E>)
+            requires old(self).state().handles.contains_key(handle)
+            ensures
+                r is Ok ==> final(self).state() == (State { handles: old(self).state().handles.remove(handle), ..old(self).state() }),
+                r is Err ==> final(self).state() == old(self).state(),
+                r matches Err(e) ==> !e.is_application_error();
+
+        /// creates a new object of an inner blueprint of this package with the given fields; its id is fresh
+        fn new_simple_object(&mut self, blueprint_ident: &str, fields: IndexMap<FieldIndex, FieldValue>) -> (r: Result<NodeId, E>)
+            ensures
+                r matches Ok(id) ==> !old(self).state().objects.contains_key(id)
+                    && final(self).state() == (State { objects: old(self).state().objects.insert(id,
+                            ObjG { blueprint: blueprint_ident@, fields: ghost_fields(fields@) }), ..old(self).state() }),
+                r is Err ==> final(self).state() == old(self).state(),
                 r matches Err(e) ==> !e.is_application_error();
 
         fn actor_is_feature_enabled(&mut self, object_handle: ActorStateHandle, feature: &str) -> (r: Result<bool, E>)
@@ -363,6 +433,54 @@ pub mod env {
         pub fn fully_update_and_into_latest_version(self) -> (r: NonFungibleResourceManagerMutableFieldsV1) ensures r == self.content { self.content }
     }
 
+    pub struct NonFungibleResourceManagerTotalSupplyFieldPayload { pub content: Decimal }
+    impl VerifPayload for NonFungibleResourceManagerTotalSupplyFieldPayload {
+        open spec fn accepts(v: GhostVal) -> bool { v is Supply }
+        open spec fn ghost(&self) -> GhostVal { GhostVal::Supply(self.content) }
+    }
+    impl NonFungibleResourceManagerTotalSupplyFieldPayload {
+        pub fn fully_update_and_into_latest_version(self) -> (r: Decimal) ensures r == self.content { self.content }
+        pub fn from_content_source(c: Decimal) -> (r: Self) ensures r.content == c { Self { content: c } }
+    }
+    pub struct NonFungibleResourceManagerIdTypeFieldPayload { pub content: NonFungibleIdType }
+    impl VerifPayload for NonFungibleResourceManagerIdTypeFieldPayload {
+        open spec fn accepts(v: GhostVal) -> bool { v is IdType }
+        open spec fn ghost(&self) -> GhostVal { GhostVal::IdType(self.content) }
+    }
+    impl NonFungibleResourceManagerIdTypeFieldPayload {
+        pub fn fully_update_and_into_latest_version(self) -> (r: NonFungibleIdType) ensures r == self.content { self.content }
+    }
+
+    // ---- `map.into_iter().map(f).collect()`: modelled as inherent methods on the by-value iterator (inherent
+    // methods shadow Iterator::map / collect, so the real text resolves to them).  ASSUMED (std / indexmap docs):
+    // `map(f)` applies `f` to every item in order; collecting pairs into an IndexMap inserts them in order.
+    #[verifier::external_body]
+    #[verifier::reject_recursive_types(B)]
+    pub struct MappedIter<B> { k: core::marker::PhantomData<B> }
+    impl<B> MappedIter<B> {
+        pub uninterp spec fn seq(&self) -> Seq<B>;
+        #[verifier::external_body]
+        pub fn collect<C: FromPairSeq<B>>(self) -> (r: C) ensures C::collected(self.seq(), r) { unimplemented!() }
+    }
+    pub trait FromPairSeq<B>: Sized { spec fn collected(s: Seq<B>, r: Self) -> bool; }
+    impl<K, V> FromPairSeq<(K, V)> for IndexMap<K, V> {
+        /// for pairwise distinct keys: exactly those keys, each with its value
+        open spec fn collected(s: Seq<(K, V)>, r: Self) -> bool {
+            (forall|i: int, j: int| 0 <= i < j < s.len() ==> s[i].0 != s[j].0)
+            ==> (forall|i: int| 0 <= i < s.len() ==> r@.contains_key(#[trigger] s[i].0) && r@[s[i].0] == s[i].1)
+                && (forall|k: K| r@.contains_key(k) ==> exists|i: int| 0 <= i < s.len() && #[trigger] s[i].0 == k)
+        }
+    }
+    impl<K, V> ImIntoIter<K, V> {
+        #[verifier::external_body]
+        pub fn map<B, F: Fn((K, V)) -> B>(self, f: F) -> (r: MappedIter<B>)
+            requires forall|i: int| 0 <= i < self.rest().len() ==> call_requires(f, (#[trigger] self.rest()[i],))
+            ensures r.seq().len() == self.rest().len(),
+                    forall|i: int| #![trigger self.rest()[i]] #![trigger r.seq()[i]]
+                        0 <= i < self.rest().len() ==> call_ensures(f, (self.rest()[i],), r.seq()[i])
+        { unimplemented!() }
+    }
+
     /// radix-native-sdk Runtime::emit_event -> api.actor_emit_event: touches nothing of the modelled state
     pub struct Runtime;
     impl Runtime {
@@ -371,17 +489,12 @@ pub mod env {
             ensures final(api).state() == old(api).state(), r matches Err(e) ==> !e.is_application_error(),
         { unimplemented!() }
     }
-    pub struct NonFungibleResourceManagerBlueprint;
-    impl NonFungibleResourceManagerBlueprint {
-        /// NOT under contract here (it is the non-fungible half of C03's supply bookkeeping): ASSUMED frame --
-        /// it opens / writes the TotalSupply FIELD only; the Data collection, its handles, the features and the
-        /// objects are untouched.  (The field handle it opens is never closed.)
+    impl Runtime {
+        /// radix-native-sdk Runtime::generate_ruid -> api.generate_ruid(): 32 bytes derived from the transaction hash and
+        /// an id allocator counter; touches nothing of the modelled state.  Its UNIQUENESS is not modelled.
         #[verifier::external_body]
-        pub fn update_total_supply<Y: SystemApi<RuntimeError>>(api: &mut Y, amount: Decimal) -> (r: Result<(), RuntimeError>)
-            ensures
-                final(api).state().kv == old(api).state().kv, final(api).state().kv_handles == old(api).state().kv_handles,
-                final(api).state().features == old(api).state().features, final(api).state().objects == old(api).state().objects,
-                final(api).state().fields.remove(I_SUPPLY()) =~= old(api).state().fields.remove(I_SUPPLY()),
+        pub fn generate_ruid<Y: SystemApi<E>, E: SystemApiError>(api: &mut Y) -> (r: Result<[u8; 32], E>)
+            ensures final(api).state() == old(api).state(), r matches Err(e) ==> !e.is_application_error(),
         { unimplemented!() }
     }
 
@@ -474,6 +587,7 @@ pub mod unit {
     /*@item radix-engine/src/blueprints/resource/non_fungible/non_fungible_resource_manager.rs :: enum NonFungibleResourceManagerError
     @derive
     @*/
+    pub struct NonFungibleResourceManagerBlueprint;
     /// payload types of error variants that the functions under contract never build
     pub struct InvalidNonFungibleSchema;
     /*@item radix-engine/src/blueprints/resource/non_fungible/non_fungible_resource_manager.rs :: struct NonFungibleResourceManagerMutableFieldsV1
@@ -500,6 +614,19 @@ pub mod unit {
     /*@item radix-engine/src/blueprints/resource/events/resource_manager.rs :: struct BurnNonFungibleResourceEvent
     @derive
     @*/
+    /*@item radix-engine/src/blueprints/resource/events/resource_manager.rs :: struct MintNonFungibleResourceEvent
+    @derive
+    @*/
+    // (Verus needs the explicit 'static; the value is re-read from /repo on every run)
+    pub const NON_FUNGIBLE_BUCKET_BLUEPRINT: &'static str = /*@expr-after radix-engine-interface/src/blueprints/resource/non_fungible/non_fungible_bucket.rs :: const NON_FUNGIBLE_BUCKET_BLUEPRINT :: <<&str =>> @*/;
+    impl VerifPayload for LiquidNonFungibleResource {
+        open spec fn accepts(v: GhostVal) -> bool { v is LiquidNf }
+        open spec fn ghost(&self) -> GhostVal { GhostVal::LiquidNf(self.ids@) }
+    }
+    impl VerifPayload for LockedNonFungibleResource {
+        open spec fn accepts(v: GhostVal) -> bool { v is LockedNf }
+        open spec fn ghost(&self) -> GhostVal { GhostVal::LockedNf(self.ids@) }
+    }
 
     // ==========================================================================================
     // ORACLE (from the property statement)
@@ -522,6 +649,33 @@ pub mod unit {
             &&& (entry_of(kv0, id).locked ==> #[trigger] entry_of(kv1, id) == entry_of(kv0, id))
             &&& (live(kv0, id) && !live(kv1, id) ==> tombstone(kv1, id))
         }
+    }
+    /// (typed view: lets a proof block mention the collected map before Rust's inference has fixed its type)
+    pub open spec fn nfv(m: IndexMap<NonFungibleLocalId, ScryptoValue>) -> Map<NonFungibleLocalId, ScryptoValue> { m@ }
+    /// the resource tracks its total supply; then field 2 holds it (established by create_object)
+    pub open spec fn tracks(s: State) -> bool { s.features.contains(NonFungibleResourceManagerFeature::TrackTotalSupply) }
+    pub open spec fn wf_supply(s: State) -> bool { tracks(s) ==> s.fields.contains_key(I_SUPPLY()) && s.fields[I_SUPPLY()] is Supply }
+    /// the recorded total supply in attos (meaningful when `tracks`)
+    pub open spec fn supply(s: State) -> int { s.fields[I_SUPPLY()]->Supply_0.v() }
+    /// C03 for the non-fungible supply: it moves by `delta` attos (if tracked); no other field changes
+    pub open spec fn supply_moved(s0: State, s1: State, delta: int) -> bool {
+        &&& s1.fields.remove(I_SUPPLY()) =~= s0.fields.remove(I_SUPPLY())
+        &&& (tracks(s0) ==> wf_supply(s1) && supply(s1) == supply(s0) + delta)
+        &&& (!tracks(s0) ==> s1.fields == s0.fields)
+    }
+    pub open spec fn handles_kept(h0: Map<FieldHandle, (FieldIndex, bool)>, h1: Map<FieldHandle, (FieldIndex, bool)>) -> bool {
+        forall|h: FieldHandle| h0.contains_key(h) ==> h1.contains_key(h) && h1[h] == h0[h]
+    }
+    pub open spec fn mint_enabled(s: State) -> bool { s.features.contains(NonFungibleResourceManagerFeature::Mint) }
+    pub open spec fn wf_id_type(s: State) -> bool { s.fields.contains_key(I_ID_TYPE()) && s.fields[I_ID_TYPE()] is IdType }
+    /// the resource's id type
+    pub open spec fn id_type_of(s: State) -> NonFungibleIdType { s.fields[I_ID_TYPE()]->IdType_0 }
+    /// a freshly created non-fungible bucket holding `ids`: nothing locked
+    pub open spec fn is_new_bucket(o: ObjG, ids: Set<NonFungibleLocalId>) -> bool {
+        &&& o.blueprint == NON_FUNGIBLE_BUCKET_BLUEPRINT@
+        &&& o.fields.dom() =~= set![I_LIQUID(), I_LOCKED()]
+        &&& o.fields[I_LIQUID()] == GhostVal::LiquidNf(ids)
+        &&& o.fields[I_LOCKED()] == GhostVal::LockedNf(Map::<NonFungibleLocalId, usize>::empty())
     }
     pub open spec fn burn_enabled(s: State) -> bool { s.features.contains(NonFungibleResourceManagerFeature::Burn) }
     pub open spec fn is_nf_bucket(o: ObjG) -> bool {
@@ -552,6 +706,8 @@ pub mod unit {
             &&& nf_step(s0.kv, s1.kv)
             &&& s1.kv_handles == s0.kv_handles
             &&& s1.objects == s0.objects.remove(node)
+            // C03: the recorded supply shrinks by exactly the number of burnt ids
+            &&& supply_moved(s0, s1, -(bucket_ids(s0.objects[node]).len() * one18()))
         }
         &&& (!burn_enabled(s0) ==> !ok && s1 == s0)
         &&& s1.features == s0.features
@@ -652,6 +808,9 @@ pub mod unit {
                 &&& nf_step(s0.kv, s1.kv)
                 &&& s1.kv_handles == s0.kv_handles
             }),
+            // nothing but the Data collection (and, transiently, its handles) is touched
+            final(api).state().fields == old(api).state().fields, final(api).state().handles == old(api).state().handles,
+            final(api).state().features == old(api).state().features, final(api).state().objects == old(api).state().objects,
             // the blueprint's own refusals, exactly: a wrong id type, or (with the check) an id that is live
             ret matches Err(e) ==> (e.is_application_error() ==> exists|id: NonFungibleLocalId| #[trigger] entries@.contains_key(id) && create_refusal(old(api).state().kv, id, id_type, check_non_existence, resource_address, e)),
     @entry
@@ -665,6 +824,8 @@ pub mod unit {
             forall|j: int| 0 <= j < es.len() ==> (#[trigger] es[j]).0 == ko[j] && es[j].1 == m0[ko[j]],
             ids@ == keys_upto(es, it.index@ as int),
             api.state().kv_handles == old(api).state().kv_handles,
+            api.state().fields == old(api).state().fields, api.state().handles == old(api).state().handles,
+            api.state().features == old(api).state().features, api.state().objects == old(api).state().objects,
             others_same(old(api).state().kv, api.state().kv, keys_upto(es, it.index@ as int)),
             forall|j: int| 0 <= j < it.index@ ==> {
                 &&& (#[trigger] ko[j]).id_type_spec() == id_type
@@ -672,7 +833,7 @@ pub mod unit {
                 &&& (check_non_existence ==> never_minted(old(api).state().kv, ko[j]))
                 &&& entry_of(api.state().kv, ko[j]) == (EntryG { value: Some(m0[ko[j]]), locked: false })
             },
-    @before <<non_fungible_local_id.id_type() != id_type>> #1
+    @before <<non_fungible_local_id.id_type()>> #1
         proof {
             lemma_key_fresh(es, ko, it.index@ as int);
             lemma_keys_step(es, it.index@ as int);
@@ -698,6 +859,10 @@ pub mod unit {
     // containers (same contracts as unit c03_resource_containers)
     // ==========================================================================================
     impl LiquidNonFungibleResource {
+        /*@fn radix-engine-interface/src/blueprints/resource/resource.rs :: impl LiquidNonFungibleResource :: fn new
+        @sig
+            ensures ret.ids == ids
+        @*/
         /*@fn radix-engine-interface/src/blueprints/resource/resource.rs :: impl LiquidNonFungibleResource :: fn ids
         @sig
             ensures *ret == self.ids
@@ -715,6 +880,12 @@ pub mod unit {
         /*@fn radix-engine-interface/src/blueprints/resource/resource.rs :: impl LockedNonFungibleResource :: fn is_locked
         @sig
             ensures ret == (self.ids@.dom().len() > 0)
+        @*/
+    }
+    impl Default for LockedNonFungibleResource {
+        /*@fn radix-engine-interface/src/blueprints/resource/resource.rs :: impl Default for LockedNonFungibleResource :: fn default
+        @sig
+            ensures ret.ids@ == Map::<NonFungibleLocalId, usize>::empty()
         @*/
     }
 
@@ -751,10 +922,173 @@ pub mod unit {
                 ret matches Err(e) ==> (e.is_application_error() ==> e == nfrm_err(NonFungibleResourceManagerError::NotBurnable)),
         @*/
 
+        /*@fn radix-engine/src/blueprints/resource/non_fungible/non_fungible_resource_manager.rs :: impl NonFungibleResourceManagerBlueprint :: fn update_total_supply
+        @sig
+            requires wf_supply(old(api).state())
+            ensures
+                ret is Ok ==> supply_moved(old(api).state(), final(api).state(), amount.v()),
+                ret is Err ==> final(api).state().fields == old(api).state().fields,
+                final(api).state().fields.remove(I_SUPPLY()) =~= old(api).state().fields.remove(I_SUPPLY()),
+                // a supply that would leave the Decimal range is refused (never wraps)
+                tracks(old(api).state()) && !in_dec(supply(old(api).state()) + amount.v()) ==> ret is Err,
+                final(api).state().kv == old(api).state().kv, final(api).state().kv_handles == old(api).state().kv_handles,
+                final(api).state().features == old(api).state().features, final(api).state().objects == old(api).state().objects,
+                handles_kept(old(api).state().handles, final(api).state().handles),
+                ret matches Err(e) ==> (e.is_application_error() ==> e == nfrm_err(NonFungibleResourceManagerError::UnexpectedDecimalComputationError)),
+        @*/
+        /*@fn radix-engine/src/blueprints/resource/non_fungible/non_fungible_resource_manager.rs :: impl NonFungibleResourceManagerBlueprint :: fn assert_mintable
+        @sig
+            ensures
+                final(api).state() == old(api).state(),
+                ret is Ok ==> mint_enabled(old(api).state()),
+                !mint_enabled(old(api).state()) ==> ret is Err,
+                ret matches Err(e) ==> (e.is_application_error() ==> e == nfrm_err(NonFungibleResourceManagerError::NotMintable)),
+        @*/
+        /*@fn radix-engine/src/blueprints/resource/non_fungible/non_fungible_resource_manager.rs :: impl NonFungibleResourceManagerBlueprint :: fn assert_is_not_ruid
+        @sig
+            requires wf_id_type(old(api).state())
+            ensures
+                ret matches Ok(t) ==> t == id_type_of(old(api).state()) && t != NonFungibleIdType::RUID
+                    && final(api).state().handles =~= old(api).state().handles,
+                id_type_of(old(api).state()) == NonFungibleIdType::RUID ==> ret is Err,
+                final(api).state().kv == old(api).state().kv, final(api).state().kv_handles == old(api).state().kv_handles,
+                final(api).state().fields == old(api).state().fields, final(api).state().features == old(api).state().features,
+                final(api).state().objects == old(api).state().objects,
+                ret matches Err(e) ==> (e.is_application_error() ==> e == nfrm_err(NonFungibleResourceManagerError::InvalidNonFungibleIdType)),
+        @*/
+        /*@fn radix-engine/src/blueprints/resource/non_fungible/non_fungible_resource_manager.rs :: impl NonFungibleResourceManagerBlueprint :: fn assert_is_ruid
+        @sig
+            requires wf_id_type(old(api).state())
+            ensures
+                ret is Ok ==> id_type_of(old(api).state()) == NonFungibleIdType::RUID && final(api).state().handles =~= old(api).state().handles,
+                id_type_of(old(api).state()) != NonFungibleIdType::RUID ==> ret is Err,
+                final(api).state().kv == old(api).state().kv, final(api).state().kv_handles == old(api).state().kv_handles,
+                final(api).state().fields == old(api).state().fields, final(api).state().features == old(api).state().features,
+                final(api).state().objects == old(api).state().objects,
+        @*/
+        /*@fn radix-engine/src/blueprints/resource/non_fungible/non_fungible_resource_manager.rs :: impl NonFungibleResourceManagerBlueprint :: fn create_bucket
+        @sig
+            ensures
+                ret matches Ok(b) ==> ({
+                    let s0 = old(api).state(); let s1 = final(api).state();
+                    &&& !s0.objects.contains_key(b.0.0)
+                    &&& s1.objects.contains_key(b.0.0) && is_new_bucket(s1.objects[b.0.0], ids@)
+                    &&& s1 == (State { objects: s0.objects.insert(b.0.0, s1.objects[b.0.0]), ..s0 })
+                }),
+                ret is Err ==> final(api).state() == old(api).state(),
+                ret matches Err(e) ==> !e.is_application_error(),
+        @*/
+
+        // ------------------------------------------------------------------------------ MINT (explicit ids) --
+        /*@fn radix-engine/src/blueprints/resource/non_fungible/non_fungible_resource_manager.rs :: impl NonFungibleResourceManagerBlueprint :: fn mint_non_fungible
+        @sig
+            requires wf_id_type(old(api).state()), wf_supply(old(api).state())
+            ensures
+                ret matches Ok(b) ==> ({
+                    let s0 = old(api).state(); let s1 = final(api).state();
+                    &&& mint_enabled(s0)
+                    &&& id_type_of(s0) != NonFungibleIdType::RUID
+                    &&& forall|id: NonFungibleLocalId| #[trigger] entries@.contains_key(id) ==> {
+                            // each id has the resource's id type, was NEVER minted before (no live entry, no tombstone) ..
+                            &&& id.id_type_spec() == id_type_of(s0)
+                            &&& never_minted(s0.kv, id)
+                            // .. and is now live with the given data
+                            &&& entry_of(s1.kv, id) == (EntryG { value: Some(entries@[id].0), locked: false })
+                        }
+                    &&& others_same(s0.kv, s1.kv, entries@.dom())
+                    &&& nf_step(s0.kv, s1.kv)
+                    &&& s1.kv_handles == s0.kv_handles
+                    // the new bucket holds exactly the minted ids
+                    &&& !s0.objects.contains_key(b.0.0)
+                    &&& s1.objects.contains_key(b.0.0) && is_new_bucket(s1.objects[b.0.0], entries@.dom())
+                    &&& s1.objects == s0.objects.insert(b.0.0, s1.objects[b.0.0])
+                    // C03: the recorded supply grows by exactly the number of minted ids
+                    &&& supply_moved(s0, s1, entries@.dom().len() * one18())
+                }),
+                !mint_enabled(old(api).state()) ==> ret is Err && final(api).state() == old(api).state(),
+        @entry
+            let ghost m0 = entries@;
+            let ghost ko = entries.key_order();
+            let ghost es = entry_order(entries);
+            proof {
+                assert(ko.no_duplicates() && ko.to_set() == m0.dom());
+                assert forall|j: int| 0 <= j < ko.len() implies m0.contains_key(#[trigger] ko[j]) by { assert(ko.to_set().contains(ko[j])); }
+            }
+        @after <<let non_fungibles>> #1
+            proof {
+                assert forall|j: int| 0 <= j < ko.len() implies
+                    nfv(non_fungibles).contains_key(#[trigger] ko[j]) && nfv(non_fungibles)[ko[j]] == m0[ko[j]].0
+                by { let e = es[j]; assert(e.0 == ko[j] && e.1 == m0[ko[j]]); }
+                assert forall|id: NonFungibleLocalId| m0.contains_key(id) implies
+                    nfv(non_fungibles).contains_key(id) && nfv(non_fungibles)[id] == m0[id].0
+                by {
+                    assert(ko.to_set().contains(id));
+                    let j = choose|j: int| 0 <= j < ko.len() && ko[j] == id;
+                }
+                assert(nfv(non_fungibles).dom() =~= m0.dom());
+            }
+        @subst <<|(k, v)| (k, v.0)>> => <<|kv: (NonFungibleLocalId, (ScryptoValue,))| -> (r: (NonFungibleLocalId, ScryptoValue)) ensures r.0 == kv.0 && r.1 == kv.1.0 { (kv.0, kv.1.0) }>> why: Verus does not support patterns in closure parameters; destructuring the pair in the parameter is the same as projecting it in the body (the ensures clause is the usual closure annotation)
+        @*/
+
+        // ------------------------------------------------------------------------------ MINT (generated ids) --
+        /*@fn radix-engine/src/blueprints/resource/non_fungible/non_fungible_resource_manager.rs :: impl NonFungibleResourceManagerBlueprint :: fn mint_single_ruid_non_fungible
+        @sig
+            requires wf_id_type(old(api).state()), wf_supply(old(api).state())
+            ensures
+                ret matches Ok(bi) ==> ({
+                    let s0 = old(api).state(); let s1 = final(api).state(); let id = bi.1;
+                    &&& mint_enabled(s0)
+                    &&& id_type_of(s0) == NonFungibleIdType::RUID && id.id_type_spec() == NonFungibleIdType::RUID
+                    // a generated id that had been burnt is refused (tombstone); that it was not LIVE rests on the
+                    // uniqueness of generate_ruid, which is not modelled (no existence check on this path)
+                    &&& !entry_of(s0.kv, id).locked
+                    &&& entry_of(s1.kv, id) == (EntryG { value: Some(value), locked: false })
+                    &&& others_same(s0.kv, s1.kv, set![id])
+                    &&& nf_step(s0.kv, s1.kv)
+                    &&& s1.kv_handles == s0.kv_handles
+                    &&& !s0.objects.contains_key(bi.0.0.0)
+                    &&& s1.objects.contains_key(bi.0.0.0) && is_new_bucket(s1.objects[bi.0.0.0], set![id])
+                    &&& s1.objects == s0.objects.insert(bi.0.0.0, s1.objects[bi.0.0.0])
+                    &&& supply_moved(s0, s1, one18())
+                }),
+                !mint_enabled(old(api).state()) ==> ret is Err && final(api).state() == old(api).state(),
+        @*/
+
+        /*@fn radix-engine/src/blueprints/resource/non_fungible/non_fungible_resource_manager.rs :: impl NonFungibleResourceManagerBlueprint :: fn mint_ruid_non_fungible
+        @sig
+            requires wf_id_type(old(api).state()), wf_supply(old(api).state())
+            ensures
+                ret matches Ok(b) ==> ({
+                    let s0 = old(api).state(); let s1 = final(api).state();
+                    &&& mint_enabled(s0)
+                    &&& id_type_of(s0) == NonFungibleIdType::RUID
+                    &&& !s0.objects.contains_key(b.0.0)
+                    &&& s1.objects.contains_key(b.0.0) && is_nf_bucket(s1.objects[b.0.0])
+                    &&& s1.objects == s0.objects.insert(b.0.0, s1.objects[b.0.0])
+                    // the minted ids = the content of the new bucket
+                    &&& forall|id: NonFungibleLocalId| #[trigger] bucket_ids(s1.objects[b.0.0]).contains(id) ==> {
+                            &&& id.id_type_spec() == NonFungibleIdType::RUID
+                            &&& !entry_of(s0.kv, id).locked
+                            &&& live(s1.kv, id) && !entry_of(s1.kv, id).locked
+                        }
+                    &&& others_same(s0.kv, s1.kv, bucket_ids(s1.objects[b.0.0]))
+                    &&& nf_step(s0.kv, s1.kv)
+                    &&& s1.kv_handles == s0.kv_handles
+                }),
+                !mint_enabled(old(api).state()) ==> ret is Err && final(api).state() == old(api).state(),
+        @after <<let mut non_fungibles>> #1
+            let ghost s_pre = api.state();
+        @loop 1
+            invariant
+                api.state() == s_pre, mint_enabled(old(api).state()),
+                forall|k: NonFungibleLocalId| #[trigger] non_fungibles@.contains_key(k) ==> k.id_type_spec() == NonFungibleIdType::RUID,
+        @*/
+
         // ------------------------------------------------------------------------------ BURN --
         /*@fn radix-engine/src/blueprints/resource/non_fungible/non_fungible_resource_manager.rs :: impl NonFungibleResourceManagerBlueprint :: fn burn_internal
         @sig
             requires
+                wf_supply(old(api).state()),
                 old(api).state().objects.contains_key(bucket.0.0) ==> is_nf_bucket(old(api).state().objects[bucket.0.0]),
             ensures
                 burn_post(old(api).state(), final(api).state(), bucket.0.0, ret is Ok),
@@ -772,6 +1106,7 @@ pub mod unit {
                 api.state().features == old(api).state().features,
                 api.state().kv_handles == old(api).state().kv_handles,
                 api.state().objects == old(api).state().objects.remove(bucket.0.0),
+                supply_moved(old(api).state(), api.state(), -(bids.len() * one18())),
                 forall|j: int| 0 <= j < it.index@ ==> !entry_of(old(api).state().kv, #[trigger] ord[j]).locked && tombstone(api.state().kv, ord[j]),
                 others_same(old(api).state().kv, api.state().kv, ord.take(it.index@ as int).to_set()),
         @before <<let handle = api.actor_open_key_value_entry>> #1
@@ -793,6 +1128,7 @@ pub mod unit {
         /*@fn radix-engine/src/blueprints/resource/non_fungible/non_fungible_resource_manager.rs :: impl NonFungibleResourceManagerBlueprint :: fn burn
         @sig
             requires
+                wf_supply(old(api).state()),
                 old(api).state().objects.contains_key(bucket.0.0) ==> is_nf_bucket(old(api).state().objects[bucket.0.0]),
             ensures
                 burn_post(old(api).state(), final(api).state(), bucket.0.0, ret is Ok),
@@ -827,6 +1163,19 @@ pub mod unit {
                              && g.local_id == id))
                 }),
         @closure 1 := || -> (r: RuntimeError) ensures r == nfrm_err(NonFungibleResourceManagerError::UnknownMutableFieldName(field_name))
+        @before <<let non_fungible_handle>> #1
+            proof {
+                assert(mutable_fields(old(api).state()).contains_key(field_name));
+                assert(field_index == mutable_fields(old(api).state())[field_name]);
+                assert(api.state().kv == old(api).state().kv);
+            }
+        @before <<match non_fungible_data_payload.as_mut()>> #1
+            proof {
+                assert(live(old(api).state().kv, id));
+                assert(non_fungible_data_payload.content == entry_of(old(api).state().kv, id).value->0);
+                assert(non_fungible_data_payload.content is Tuple);
+                assert(field_index < non_fungible_data_payload.content->fields.len());
+            }
         @*/
 
         /*@fn radix-engine/src/blueprints/resource/non_fungible/non_fungible_resource_manager.rs :: impl NonFungibleResourceManagerBlueprint :: fn non_fungible_exists
@@ -848,6 +1197,7 @@ pub mod unit {
         /*@fn radix-engine/src/blueprints/resource/non_fungible/non_fungible_resource_manager.rs :: impl NonFungibleResourceManagerBlueprint :: fn package_burn
         @sig
             requires
+                wf_supply(old(api).state()),
                 old(api).state().objects.contains_key(bucket.0.0) ==> is_nf_bucket(old(api).state().objects[bucket.0.0]),
             ensures
                 burn_post(old(api).state(), final(api).state(), bucket.0.0, ret is Ok),
